@@ -296,6 +296,11 @@ FnEmitter::Vis FnEmitter::visibility(const Instruction& I) {
       }
     }
     if (c->getName() == "vf_yield") return VIS_READ;
+    if (c->getName() == "pthread_mutex_lock") return VIS_BLOCKING;
+    if (c->getName() == "pthread_mutex_unlock" || c->getName() == "_ZNSt18condition_variable10notify_oneEv" ||
+        c->getName() == "_ZNSt18condition_variable10notify_allEv")
+      return VIS_WRITE;
+    if (c->getName() == "_ZNSt18condition_variable4waitERSt11unique_lockISt5mutexE") return VIS_WRITE; // first of three steps
     if (T.visibleCalls.count(c->getName().str())) return VIS_BLOCKING;
     return INVISIBLE;
   }
@@ -394,6 +399,19 @@ void FnEmitter::run(raw_ostream& os) {
         emitInst(I);
         if (v == VIS_BLOCKING)
           body << "  if (vf_probe_mode) { if (!vf_blocked[" << tid << "]) vf_enabled[" << tid << "] = 1; return; }\n";
+        if (auto* CBW = dyn_cast<CallBase>(&I))
+          if (auto* cw = dyn_cast<Function>(CBW->getCalledOperand()->stripPointerCasts()))
+            if (cw->getName() == "_ZNSt18condition_variable4waitERSt11unique_lockISt5mutexE") {
+              // condition_variable::wait = release the mutex and remember the notification count (the call above),
+              // block until notified, re-acquire the mutex: two further (blocking) scheduling points
+              for (int phase = 0; phase < 2; ++phase) {
+                int pc = nextPc++;
+                pcs.push_back(pc);
+                body << "  vf_pc[" << tid << "] = " << pc << "; if (!vf_probe_mode) return;\n R" << pc << ": ;\n";
+                body << "  " << (phase == 0 ? "vf_cv_wait_block(" : "vf_cv_wait_relock(") << val(CBW->getArgOperand(0)) << ", " << val(CBW->getArgOperand(1)) << ");\n";
+                body << "  if (vf_probe_mode) { if (!vf_blocked[" << tid << "]) vf_enabled[" << tid << "] = 1; return; }\n";
+              }
+            }
       } else
         emitInst(I);
     }
@@ -472,26 +490,35 @@ void Translator::emitScheduler(raw_ostream& os, const Function& F) {
   if (Function* TI = M.getFunction("vf_tinit_" + base))
     if (!TI->isDeclaration())
       for (int k = 0; k < nthreads; ++k) os << "  if (n > " << k << ") " << globalName(TI) << "__t" << k << "();\n";
-  os
+  // no 'break' in this loop: an early exit would put the negated exit conditions of all earlier iterations into the
+  // path guard of every later statement (formula size quadratic in the number of steps); a flag keeps each iteration's
+  // guard a single literal
+  os << "  uint8_t active = 1;\n"
      << "  for (s = 0; s < steps; ++s) {\n"
      << "    uint8_t all = 1; for (t = 0; t < " << nthreads << "; ++t) all &= vf_done[t];\n"
-     << "    if (all) break;\n"
-     << "    if (vf_nondet_bool()) { stopped = 1; break; }\n"
-     << "    t = vf_sched_choice(n);\n"
-     << "    VF_ASSUME(t < n && !vf_done[t]);\n"
-     << "    vf_cur = t;\n"
-     << "    switch (t) {\n";
-  for (int k = 0; k < nthreads; ++k) os << "    case " << k << ": if (n > " << k << ") { vf_cur = " << k << "; " << name << "__t" << k << "(); } break;\n";
-  os << "    }\n  }\n"
+     << "    if (active && all) active = 0;\n"
+     << "    if (active && vf_nondet_bool()) { stopped = 1; active = 0; }\n"
+     << "    if (active) {\n"
+     << "      t = vf_sched_choice(n);\n"
+     << "      VF_ASSUME(t < n && !vf_done[t]);\n"
+     << "      vf_cur = t; vf_stepping = 1;\n"
+     << "";
+  // nested if/else instead of switch: CBMC restores the path guard exactly when complementary branches re-join,
+  // but leaves an unsimplified disjunction behind a multi-way switch (one more conjunct per step in every later guard)
+  for (int k = 0; k < nthreads; ++k)
+    os << std::string(6 + 2 * k, ' ') << "if (t == " << k << ") { if (n > " << k << ") { vf_cur = " << k << "; " << name << "__t" << k << "(); } } else {\n";
+  os << std::string(6 + 2 * nthreads, ' ') << ";\n";
+  for (int k = nthreads - 1; k >= 0; --k) os << std::string(6 + 2 * k, ' ') << "}\n";
+  os << "      vf_stepping = 0;\n      VF_ASSUME(!vf_dead);\n    }\n  }\n"
      << "  for (t = 0; t < " << nthreads << "; ++t) live += !vf_done[t];\n"
-     << "  if (live) {\n    vf_probe_mode = 1;\n";
+     << "  if (live) {\n    vf_probe_mode = 1; vf_stepping = 1;\n";
   for (int k = 0; k < nthreads; ++k)
     os << "    if (n > " << k << " && !vf_done[" << k << "]) { vf_cur = " << k << "; vf_blocked[" << k << "] = 0; vf_pausecnt[" << k << "] = 0; vf_enabled[" << k << "] = 0; " << name
        << "__t" << k << "(); nblocked += (vf_blocked[" << k << "] && !vf_enabled[" << k << "]); }\n";
   os << "    VF_ASSERT(nblocked < live, \"deadlock: every unfinished thread waits on a condition no thread can change\");\n"
      << "    VF_BOUND_ASSERT(stopped, \"scheduler step bound too small for a complete execution\");\n"
      << "    VF_ASSUME(0);\n  }\n"
-     << "  vf_cur = 0; vf_region_end(n);\n}\n\n";
+     << "  vf_stepping = 0; vf_cur = 0; vf_region_end(n);\n}\n\n";
 }
 
 // ---------------------------------------------------------------- reachability
